@@ -1067,7 +1067,7 @@ func ruleStatusWriters(r *core.Reporter) {
 	for pk, m := range perPkg {
 		r.Held("SetStatus/"+pk, sumInt(m), "states written: %v", keysInt(m))
 	}
-	r.Floor("SetStatus call sites", sites, 15)
+	r.Floor("SetStatus call sites", sites, 8)
 	// ItemArchived has exactly one writer site program-wide (R-ARCHIVED-ONLY-HERE is in C02)
 }
 
@@ -1195,7 +1195,7 @@ func rulePreExits(r *core.Reporter) {
 	}
 	isElem := func(v ssa.Value) bool { _, _, e := elemLoad(ir.Strip(v)); return e }
 	rets := ir.Returns(fn)
-	r.Floor("returns of preprocess", len(rets), 5)
+	r.Floor("returns of preprocess", len(rets), 3)
 	counts := map[string]int{}
 	bad := 0
 	for _, ret := range rets {
@@ -1259,5 +1259,5 @@ func rulePreExits(r *core.Reporter) {
 			})
 		}
 	}
-	r.Floor("whole-seed terminal marks in the preprocessor", n, 2)
+	r.Floor("whole-seed terminal marks in the preprocessor", n, 1)
 }
